@@ -206,6 +206,30 @@ func (y *Choice) addCase(c *ChoiceCase) error {
 	return nil
 }
 
+// findInChoices looks for a data definition inside the cases of the choices among defs, at
+// any nesting depth: choice and case do not show in a data path, and what a case holds
+// may have been added (uses, augment) after the choice was indexed by its parent
+func findInChoices(defs []Definition, ident string) Definition {
+	for _, d := range defs {
+		c, isChoice := d.(*Choice)
+		if !isChoice {
+			continue
+		}
+		for _, cid := range c.CaseIdents() {
+			k := c.cases[cid]
+			for _, kdef := range k.dataDefs {
+				if kdef.Ident() == ident {
+					return kdef
+				}
+			}
+			if x := findInChoices(k.dataDefs, ident); x != nil {
+				return x
+			}
+		}
+	}
+	return nil
+}
+
 func (y *Choice) Cases() map[string]*ChoiceCase {
 	return y.cases
 }
